@@ -26,7 +26,8 @@ RULE = ("Hypothesis draws write programs: 1-2 writer sessions (first 'w', later 
         ' Every accepted program is also read lazily (TdmsFile.open, channels first-to-last and last-to-first, plus '
         'the window holding each single write); further jobs write long arrays whose lengths lie on and next to '
         'powers of two (512..196608 values, path and stream targets) and 100-140 segments with twin channels; '
-        'programs may overwrite an existing file or use one writer object for all sessions.')
+        'programs may overwrite an existing file or use one writer object for all sessions.'
+        ' write_segment receives lists, tuples or one-shot iterators.')
 ASSUMPTIONS = [
     "programs the writer rejects are outside the statement (acceptance rate is measured; < 95% makes the run inconclusive)",
     "one data type per channel over the program (lists of ints are pinned to one inference bracket)",
